@@ -617,7 +617,7 @@ func directed() []input {
 }
 
 func gen(r *hx.Rand, tier string) []json.RawMessage {
-	n, nbig := 420, 30
+	n, nbig := 340, 24
 	if tier == "thorough" {
 		n, nbig = 6000, 600
 	}
